@@ -13,6 +13,7 @@ type RunResult struct {
 	RunSeed   uint64
 	Config    RunConfig
 	Violation *Violation
+	Foreign   *Violation
 	ToolError string
 	Digest    string
 	Stats     *Stats
@@ -70,6 +71,7 @@ func RunOne(p Profile, verifSeed uint64, i int, opt Options) *RunResult {
 
 func fill(c *Cluster, res *RunResult) {
 	res.Violation = c.viol
+	res.Foreign = c.foreign
 	res.ToolError = c.chk.toolErr
 	res.Digest = c.Digest()
 	res.Stats = c.stats
